@@ -3306,7 +3306,9 @@ func (h *RequestHeader) parseHeaders(buf []byte, blockEnd int) (int, error) {
 	if h.contentLength < 0 {
 		h.contentLengthBytes = h.contentLengthBytes[:0]
 	}
-	if closeAfterRequest {
+	if closeAfterRequest || (contentLengthSeen && transferEncodingSeen) {
+		// Transfer-Encoding overrides Content-Length, but the connection
+		// must be closed after responding (RFC 9112 section 6.1).
 		h.connectionClose = true
 	}
 	if h.noHTTP11 && !h.connectionClose {
